@@ -7,6 +7,8 @@ exit has a documented status and is preceded by a diagnostic; (no-error-after-ou
 the formatted source no error exit is reachable.
 Not decided: general memory safety / undefined behaviour (needs a value analysis of 75 kLoC of C++), wall-time bounds.
 """
+import re
+
 from ..facts import expr_str, walk, in_macro, enum_consts, global_path
 from ..nullwalk import NullWalk, is_chunk_ptr
 from .common_io import UNC, is_exit_call, exit_status, is_call
@@ -257,6 +259,160 @@ def rule_text_index(ctx):
     r.floor(2)
 
 
+_ES = {"char": 1, "UINT8": 1, "unsigned char": 1, "uint8_t": 1, "UINT32": 4, "uint32_t": 4, "int": 4, "wchar_t": 4, "unsigned int": 4}
+
+
+def _extent(db, f, i, depth=0):
+    """(bytes, offset expression or None, name, element size) of a destination that is (inside) a fixed-size array: an array
+    typed local/field/global, `&a[k]`, `a + k`, or a pointer parameter every caller binds to such an array"""
+    import re
+    n = f.nodes.get(i)
+    while n is not None and n["k"] == "cast":
+        n = f.nodes.get(n["a"][0])
+    if n is None or depth > 3:
+        return None
+    if n["k"] in ("ref", "mem"):
+        m = re.match(r"^(?:const )?([\w ]+?)\s*\[(\d+)\]$", n.get("t") or "")
+        if m and m.group(1) in _ES:
+            return (int(m.group(2)) * _ES[m.group(1)], None, expr_str(f, n["i"]), _ES[m.group(1)])
+        if n["k"] == "ref" and n.get("d") == "pv":
+            ps = [p["n"] for p in f.d["params"]]
+            cs = db.callers_of_key(f.key)
+            if n["n"] in ps and cs:
+                k = ps.index(n["n"])
+                best = None
+                for g, c in cs:
+                    if len(c.get("a", ())) <= k:
+                        return None
+                    e = _extent(db, g, c["a"][k], depth + 1)
+                    if e is None or e[1] is not None:
+                        return None
+                    best = e[0] if best is None else min(best, e[0])
+                return (best, None, n["n"], 1)
+        return None
+    if n["k"] == "un" and n.get("op") == "&":
+        x = f.nodes.get(n["a"][0])
+        if x is not None and x["k"] == "idx":
+            e = _extent(db, f, x["a"][0], depth + 1)
+            if e is not None and e[1] is None:
+                return (e[0], x["a"][1], e[2], e[3])
+    if n["k"] == "bin" and n.get("op") == "+":
+        e = _extent(db, f, n["a"][0], depth + 1)
+        if e is not None and e[1] is None:
+            return (e[0], n["a"][1], e[2], e[3])
+    return None
+
+
+def rule_bounded_copy(ctx):
+    """analysis A10 (uv/bounds.py): every write into a fixed-size buffer stays inside it"""
+    from ..bounds import Bounds
+    db = ctx.db
+    r = ctx.rule("bounded-copy", "every memcpy/memmove/memset/strncpy/strcpy/strcat into, and every subscript store to, a fixed-size character "
+                 "buffer (array typed local, field or global, or a pointer parameter that every caller binds to one) has offset + length <= "
+                 "extent by interval facts (literals, sizeof, dominating comparisons, BoundedOption ranges, loop-exit facts), and no unsigned "
+                 "subtraction in a length or index can wrap")
+    COPY = {"memcpy": (0, 2), "memmove": (0, 2), "strncpy": (0, 2), "memset": (0, 2), "strcpy": (0, None), "strcat": (0, None), "strncat": (0, 2)}
+    n_sites = 0
+    cnt = {}
+
+    def key_of(f, what):
+        k = "%s/%s" % (f.qn, what[:60])
+        cnt[k] = cnt.get(k, 0) + 1
+        return k if cnt[k] == 1 else "%s#%d" % (k, cnt[k])
+
+    def strlen_ub(f, B, src):
+        """upper bound of strlen(src): literal, or a local defined as strlen(src) that the facts bound"""
+        y = f.nodes.get(src)
+        while y is not None and y["k"] == "cast":
+            y = f.nodes.get(y["a"][0])
+        if y is not None and y["k"] == "str":
+            return len(y["v"])
+        s = expr_str(f, src)
+        best = None
+        for m in f.nodes.values():
+            if m["k"] == "decl":
+                for v in m.get("vars", ()):
+                    ini = f.nodes.get(v.get("init")) if v.get("init") is not None else None
+                    while ini is not None and ini["k"] == "cast":
+                        ini = f.nodes.get(ini["a"][0])
+                    if ini is not None and ini["k"] == "call" and ini.get("c") == "strlen" and ini.get("a") and expr_str(f, ini["a"][0]) == s:
+                        lb, ub = B._from_facts(v["n"])
+                        if ub is not None:
+                            best = ub if best is None else min(best, ub)
+        return best
+
+    reach = db.reachable_from([db.fn("main", file=UNC)])
+    for f in db.funcs.values():
+        if f.file == "src/uncrustify_emscripten.cpp" or f.key not in reach:
+            continue
+        for n in f.nodes.values():
+            if n["k"] == "call" and n.get("c") in COPY and n.get("a"):
+                di, li = COPY[n["c"]]
+                e = _extent(db, f, n["a"][di])
+                if e is None:
+                    continue
+                n_sites += 1
+                r.seen()
+                B = Bounds(db, f, n["i"])
+                off = (0, 0) if e[1] is None else B.interval(e[1])
+                inst = key_of(f, expr_str(f, n["i"]))
+                loc = db.loc(f, n)
+                if li is not None:
+                    ln = B.interval(n["a"][li])
+                elif n["c"] == "strcpy":
+                    u = strlen_ub(f, B, n["a"][1])
+                    ln = (1, u + 1 if u is not None else None)
+                else:  # strcat(dest, literal): strlen(dest) <= largest index at which a NUL was stored on every path
+                    u = strlen_ub(f, B, n["a"][1])
+                    dest = expr_str(f, n["a"][0])
+                    nuls = [m for m in f.all_nodes() if m["k"] == "asg" and m.get("op") == "=" and (f.nodes.get(m["a"][0]) or {}).get("k") == "idx"
+                            and expr_str(f, f.nodes[m["a"][0]]["a"][0]) == dest and (f.nodes.get(m["a"][1]) or {}).get("k") in ("int", "chr") and f.nodes[m["a"][1]]["v"] == 0]
+                    w = f.paths_avoiding(f.entry, lambda x: x["i"] == n["i"], lambda x: any(x["i"] == m["i"] for m in nuls), start_is_node=False)
+                    cur = None
+                    if nuls and w is None:
+                        ubs = [Bounds(db, f, m["i"]).interval(f.nodes[m["a"][0]]["a"][1])[1] for m in nuls]
+                        cur = max(ubs) if all(x is not None for x in ubs) else None
+                    ln = (0, cur + u + 1 if cur is not None and u is not None else None)
+                bad_wrap = [expr_str(f, i) for i, proved, a, b in B.underflow if not proved]
+                if bad_wrap:
+                    r.fail(inst, loc, "the unsigned subtraction `%s` in the length/offset of this write can wrap (no dominating fact orders its operands): "
+                           "the length becomes ~2^64 and the write runs far past the %d-byte buffer `%s`" % (bad_wrap[0], e[0], e[2]))
+                    continue
+                ok = off[1] is not None and ln[1] is not None and off[1] + ln[1] <= e[0]
+                r.check(ok, inst, loc, "write of up to %s bytes at offset up to %s into the %d-byte buffer `%s` is not bounded by the facts that "
+                        "dominate it" % (ln[1] if ln[1] is not None else "an unbounded number of", off[1] if off[1] is not None else "unbounded", e[0], e[2]))
+            elif n["k"] == "asg" and (f.nodes.get(n["a"][0]) or {}).get("k") == "idx":
+                ix = f.nodes[n["a"][0]]
+                e = _extent(db, f, ix["a"][0])
+                if e is None or e[1] is not None or e[3] != 1:
+                    continue
+                n_sites += 1
+                r.seen()
+                B = Bounds(db, f, n["i"])
+                iv = B.interval(ix["a"][1])
+                inst = key_of(f, expr_str(f, n["i"]))
+                bad_wrap = [expr_str(f, i) for i, proved, a, b in B.underflow if not proved]
+                if bad_wrap:
+                    r.fail(inst, db.loc(f, n), "the unsigned subtraction `%s` in this index can wrap: the store lands far outside the %d-byte buffer `%s`"
+                           % (bad_wrap[0], e[0], e[2]))
+                    continue
+                r.check(iv[1] is not None and iv[1] < e[0], inst, db.loc(f, n), "index up to %s into the %d-byte buffer `%s` is not bounded by the facts that "
+                        "dominate the store" % (iv[1] if iv[1] is not None else "unbounded", e[0], e[2]))
+    # checked precondition of the exception for language_name_from_flags: the names it concatenates come from the constant
+    # table language_names[]; all of them joined with ", " fit into the buffer
+    ln_tab = [g for g in db.globals if g["qn"] == "language_names" and (g.get("init") or {}).get("k") == "init"]
+    if r.check(bool(ln_tab), "language_names/table-extracted", None, "the language_names[] table was not extracted"):
+        names = [row["a"][0]["v"] for row in ln_tab[0]["init"]["a"] if row.get("a") and row["a"][0].get("k") == "str"]
+        total = sum(len(x) + 2 for x in names) + 1
+        lf = db.fn("language_name_from_flags")
+        ext = [int(mm.group(1)) for x in lf.nodes.values() for mm in [re.match(r"char\[(\d+)\]$", x.get("t") or "")] if mm and x.get("n") == "lang_liste"]
+        r.check(bool(ext) and total <= min(ext), "language_name_from_flags/all-names-fit", db.loc(lf, lf.l0),
+                "all %d language names joined with ', ' need %d bytes, lang_liste has %s" % (len(names), total, ext[:1]))
+    r.require(n_sites >= 25, "only %d writes into fixed-size buffers found" % n_sites)
+    r.note("writes into fixed-size character buffers: %d" % n_sites)
+    r.floor(25)
+
+
 def rule_no_throw(ctx):
     db = ctx.db
     r = ctx.rule("no-throw", "every std::basic_regex construction/assignment from a non-literal and every std::sto* call sits inside a try "
@@ -446,4 +602,4 @@ def rule_no_error_after_output(ctx):
     r.floor(1)
 
 
-RULES = [rule_sentinel_divergence, rule_eof_divergence, rule_null_links_immutable, rule_no_throw, rule_text_index, rule_exit_discipline, rule_no_error_after_output]
+RULES = [rule_sentinel_divergence, rule_eof_divergence, rule_null_links_immutable, rule_no_throw, rule_text_index, rule_bounded_copy, rule_exit_discipline, rule_no_error_after_output]
